@@ -17,6 +17,7 @@ the titles of the changes already used. Round 4: 8 more (C03 C04 C05 C08 C09 C10
 (C01 C02 C06 C07 C11 C12 C13 C15 C16 C19 C20). Round 6: 9 more (C03 C04 C05 C08 C09 C10 C14 C17 C18).
 Round 7: 10 more (C06 C07 C08 C09 C11 C12 C13 C18 C19 C20), each told to find a mechanism unlike all earlier ones.
 Round 8: 10 more (C01 C02 C03 C04 C05 C10 C14 C15 C16 C17) with a list of the dimensions along which a change can hide.
+Round 9: 9 more (C06 C07 C08 C09 C11 C12 C13 C19 C20), same.
 Every returned change was re-confirmed in a new scratch worktree by
 `tools/confirm_seed.sh` / `confirm_seed_unit.sh` (patch applies, 33+9 tests pass with it, the
 demonstration fails with it and passes without it; for the two memory-ordering changes the
@@ -31,9 +32,11 @@ the same change independently (C02/C03, C06/C07, C08/C11).
 for n,p,needs,c in rows:
     new+=f"| {n} | {p} | {needs.replace('|','/')} | {c} |\\n".replace('\\n','\n')
 new+='''
-All 93 are caught now, on every run, by the quick tier of the property they break. **Thirty-one
-were missed when first confirmed** (eleven of rounds 1-2, seven of round 3, two of round 4, four of
-round 5, one of round 6, five of round 7, one of round 8) and led to strengthening:
+All 102 are caught now on every run - 101 by the quick tier of the property they were made for, one
+(R9-C08, an ordering-only change that a second agent filed under C08) by the C09 check.
+**Thirty-seven were missed when first confirmed** (eleven of rounds 1-2, seven of round 3, two of
+round 4, four of round 5, one of round 6, five of round 7, one of round 8, six of round 9) and led
+to strengthening:
 
 * *C01-no-fold-after-normalize* (only U+0130 is affected) and *R2-C14-std-is-uppercase* (final
   sigma, long s, micro sign, title-case digraphs): hand-picked alphabets cannot anticipate which
@@ -129,6 +132,21 @@ round 5, one of round 6, five of round 7, one of round 8) and led to strengtheni
   *R7-C18-cancel-lost-in-sequential-branch* (half-sorted shapes).
 * Round 8: *R8-C10-prefix-bonus-unsaturated* - the long-needle families now also run with the
   prefix preference at every start offset 0..=7 (family `long-needle/prefix-offset`).
+* Round 9: *R9-C13-flag-read-before-unlock* (a second program point right after every flag
+  access, so that an un-instrumented operation that follows - here the unlock - can be delayed),
+  *R9-C11-eager-alloc-plain-store-orphans-bucket* (the loom bodies got a drop-counting item type
+  and are run a third time for C11 with the value oracle off; this exposed a bug of the shim: its
+  shadow copy of an `AtomicPtr` was written before the store instead of after it), *R9-C09-extend-
+  guard-le-count* (loom bodies with an under-reporting batch; the C09 run leaves value assertions
+  to the C08 run because loom stops at the first failing execution), *R9-C12-snapshot-cleared-
+  before-new-vector* (nothing of an older stream may be reachable through a cleared snapshot),
+  *R9-C20-restart-true-sets-init* (a panic inside `active_injectors` is a wrong count; library
+  panics are attributed to whichever property is being checked), *R9-C06-cancelled-before-start-
+  skips-rescore-reset* (edit chains shared with C06/C19). Re-running all earlier C08/C09 seeds
+  after these changes showed two regressions of the machinery, both repaired: drop accounting
+  spoke first in the C08 run (now only in the C11 run), and the new reservation-overflow cases
+  died of a 64 GiB allocation under *R2-C08* (they now run in a process of their own, whose
+  death is a violation).
 * Confirming *C13-no-retry-for-zero-timeout* exposed a harness bug (a parked thread of a
   deadlocked execution kept a global lock; the next execution stalled and the run ended as a
   machinery failure instead of a verdict) - fixed by a pool of reference matchers.
